@@ -39,6 +39,7 @@ def main():
     if ap.returncode != 0:
         raise SystemExit("patch does not apply:\n" + ap.stdout)
     results = []
+    run_tag = int(time.time())
     try:
         for p in props:
             for s in seeds:
@@ -46,7 +47,7 @@ def main():
                 r = sh(f"./check {p} --tier {tier} --seed {s}", cwd=VERIF)
                 sigs = [l.strip()[len("signature: "):] for l in r.stdout.splitlines() if l.strip().startswith("signature: ")]
                 verdict = {0: "not-detected", 1: "DETECTED", 2: "inconclusive"}.get(r.returncode, f"rc={r.returncode}")
-                results.append({"property": p, "tier": tier, "seed": s, "verdict": verdict, "signatures": sigs[:8], "wall_s": round(time.time() - t, 1),
+                results.append({"property": p, "tier": tier, "seed": s, "verdict": verdict, "signatures": sigs[:8], "wall_s": round(time.time() - t, 1), "run": run_tag,
                                 "tail": r.stdout.splitlines()[-3:]})
                 print(f"{os.path.basename(d)}: {p} seed={s} -> {verdict} {sigs[:3]}", flush=True)
     finally:
